@@ -196,7 +196,8 @@ class Network:
 
         :param peer: the new peer.
         """
-        if peer.mid in self.blacklist_mids:
+        if (peer.mid in self.blacklist_mids
+                or any(address in self.blacklist for address in peer.addresses.values())):
             return
         with self.graph_lock:
             # This may just be an address update
@@ -212,7 +213,7 @@ class Network:
                     self.verified_by_public_key_bin[peer.public_key.key_to_bin()] = peer
                     self._forget_service_caches(peer)
                     list(map(methodcaller("on_peer_added", peer), self.peer_observers))
-            elif all(address not in self.blacklist for address in peer.addresses.values()):
+            else:
                 for address in peer.addresses.values():
                     if address not in self._all_addresses:
                         self._all_addresses[address] = WalkableAddress(b"", None, False)
